@@ -152,7 +152,33 @@ def rows():
             add("jacobi", "jacobi_symbol", 0, (a, n), ("int", jacobi(a, n)), True)
     for n in (0, -3, 4):
         add("jacobi", "jacobi_symbol", 0, (3, n), R("ValueError"), True)
-    return out
+    # _mult_modulo_bytes (RSA decryption): a*b mod m as len(m) big-endian bytes
+    for (a, b, m) in ((3, 5, 7), (3, 300, 251), (300, 3, 251), (0, 5, 7), (6, 6, 7), (1 << 70, (1 << 80) + 3, W - 59),
+                      (W - 60, W - 60, W - 59), (250, 250, 251), (5, 7, (1 << 130) + 1), ((1 << 200) + 7, 9, 65537), (5, 7, 1)):
+        nb = max(1, (m.bit_length() + 7) // 8)
+        add("multmod", "_mult_modulo_bytes", 0, (a, b, m), ("bytes", (a * b % m).to_bytes(nb, "big")), True)
+    for (a, b, m, exp) in ((3, 5, 8, R("ValueError")), (3, 5, 0, R("ZeroDivisionError")), (3, 5, -7, R("ValueError"))):
+        add("multmod", "_mult_modulo_bytes", 0, (a, b, m), exp, True)
+    # the same operations with operands that are Integer objects of the same back-end (the wrappers branch on the
+    # operand type): every 4th row of the binary groups, and all inverse / pow rows
+    extra = []
+    k = 0
+    for (group, meth, a, args, exp, static) in out:
+        if static or not args or not all(isinstance(x, int) or x is None for x in args):
+            continue
+        if group in ("arith", "divmod", "bits", "rel", "nt", "shift", "bit"):
+            k += 1
+            if k % 4:
+                continue
+        elif group not in ("inverse", "pow"):
+            continue
+        if group == "rel" and args[0] is None:
+            continue
+        extra.append((group, meth, a, tuple(("I", x) if isinstance(x, int) and not isinstance(x, bool) else x for x in args), exp, static))
+    for a, e, m in ((3, -1, 7), (3, -2, 9), (5, -1, W + 13)):
+        extra.append(("pow", "__pow__", a, (("I", e), ("I", m)), R("ValueError"), False))
+        extra.append(("pow", "inplace_pow", a, (("I", e), m), R("ValueError"), False))
+    return out + extra
 
 
 # ---------------------------------------------------------------------------
@@ -187,6 +213,20 @@ def _grb(i, args, kw, st, node):
     return ABytes(getattr(v, "n", None), "bytes")
 
 
+def _monty_multiply(i, args, kw, st, node):
+    out, t1, t2, modulus, ln = (list(args) + [None] * 5)[:5]
+    if all(isinstance(x, (bytes, bytearray)) for x in (t1, t2, modulus)) and isinstance(ln, int) and isinstance(out, bytearray) \
+            and len(out) >= ln and len(modulus) >= ln and len(t1) >= ln and len(t2) >= ln:
+        m = int.from_bytes(modulus[:ln], "big")
+        if m % 2 == 0 or m == 1:
+            return 17
+        # the native routine reads exactly `len` bytes of each term, whatever the length of the Python object
+        r = int.from_bytes(t1[:ln], "big") * int.from_bytes(t2[:ln], "big") % m
+        out[:ln] = r.to_bytes(ln, "big")
+        return 0
+    return Unknown("int")
+
+
 class Backend(object):
     def __init__(self, repo, name):
         self.repo = repo
@@ -208,7 +248,7 @@ class Backend(object):
                   "Crypto.Random.random.getrandbits": lambda i, a, kw, st, node: 7}
             it = Interp(self.repo, max_depth=60, budget=6000000, extra_models=em,
                         inject={"getrandbits(64)": 7})
-            it.ffi_models = {"monty_pow": _monty_pow}
+            it.ffi_models = {"monty_pow": _monty_pow, "monty_multiply": _monty_multiply}
         it.unroll_limit = 4000
         return it
 
@@ -239,6 +279,7 @@ class Backend(object):
         ps = params_of(fn)
         is_cm = any(getattr(d, "id", None) == "classmethod" for d in fn.decorator_list)
         names = ps if (static and not is_cm) else ps[1:]
+        args = tuple(self.make(it, st, x[1]) if isinstance(x, tuple) and len(x) == 2 and x[0] == "I" else x for x in args)
         seeds = dict(zip(names, args))
         if static and is_cm:
             seeds[ps[0]] = AClass(self.mod, self.cls)
@@ -297,6 +338,7 @@ WHAT = {
     "inverse": "modular inverse; none -> ValueError, zero modulus -> ZeroDivisionError, negative modulus -> ValueError",
     "pow": "exponentiation, modular for odd and even moduli and exponents on both sides of 65536 and 2^64; negative exponent/modulus -> ValueError, zero modulus -> ZeroDivisionError",
     "jacobi": "Jacobi symbol for odd positive n; ValueError otherwise",
+    "multmod": "_mult_modulo_bytes(a, b, m) = a*b mod m as len(m) big-endian bytes for every positive odd m (terms larger than m, longer than m, zero; m = 1); even / zero / negative modulus refused",
     "nt": "gcd, lcm, fail_if_divisible_by",
 }
 
